@@ -3,7 +3,7 @@ import os, shutil
 from . import common as C
 from . import crash as K
 
-OPTS = ["lc=2", "lc=3,bs=64", "lc=2,vlog=1,vth=8,vfs=256", "lc=1", "lc=2,foc=1", "lc=2,mem=8192", "lc=2,mem=4096,foc=1", "lc=3,mem=16384"]
+OPTS = ["lc=2", "lc=3,bs=64", "lc=2,vlog=1,vth=8,vfs=256", "lc=2,vlog=1,vth=8,vfs=128,foc=1", "lc=1", "lc=2,foc=1", "lc=2,mem=8192", "lc=2,mem=4096,foc=1", "lc=3,mem=16384"]
 KEYS = ["61", "62", "6162", "63", "6200"]
 
 
@@ -72,6 +72,9 @@ def gen_workload(rng, root, tier, opts=None, big=False):
                     vcount += 1
                     if (big and rng.random() < 0.15) or ("mem=" in opts and rng.random() < 0.6):
                         v = "rep:%d:%d" % (rng.choice([300, 700, 1500, 2500] if "mem=" in opts else [300, 20000]), vcount & 255)
+                    elif "vlog=1" in opts and rng.random() < 0.75:
+                        # values above the separation threshold: one flush crosses several value-log files
+                        v = "rep:%d:%d" % (rng.choice([12, 40, 90, 200]), vcount & 255)
                     else:
                         v = "%04x" % vcount
                     lines.append("e2 set %d %s %s" % (tx, k, v))
@@ -152,7 +155,9 @@ def judge(answer, commits, n_required):
         return "open-failed", answer[1]
     got = answer[3]
     if not got.startswith("list:"):
-        return "open-failed", got
+        # the store opened but its content cannot be read: with acknowledged commits required to be
+        # there, that is also lost data (C02), not only a store that cannot serve what it wrote (C07)
+        return ("open-failed+acked-lost" if n_required > 0 else "open-failed"), got
     match = [n for n in range(len(commits) + 1) if K.state_after(commits, n) == got]
     if not match:
         # not a prefix; is acknowledged data missing as well?  (a key of the required prefix whose
@@ -170,7 +175,7 @@ def judge(answer, commits, n_required):
     return "ok", ""
 
 
-def explore(ctx, pid, want, n_quick=8, n_thorough=60, cuts_quick=40, big=False):
+def explore(ctx, pid, want, n_quick=8, n_thorough=60, cuts_quick=40, big=False, opts_pool=None):
     """want: set of verdict kinds this property reports (others are ignored here, the sibling
     property reports them)"""
     rng = C.Rng(ctx["seed"] * 7001 + 17)
@@ -190,7 +195,7 @@ def explore(ctx, pid, want, n_quick=8, n_thorough=60, cuts_quick=40, big=False):
         wd = os.path.join(base, "t%d" % t)
         root = os.path.join(wd, "root")
         os.makedirs(root)
-        script, commits, opts = gen_workload(rng, root, tier, big=big)
+        script, commits, opts = gen_workload(rng, root, tier, opts=rng.choice(opts_pool) if opts_pool else None, big=big)
         out, log = K.trace(script, root)
         import re as _re
         if any(l.startswith("W ") and not _re.fullmatch(r"W -?\d+ -?\d+ \d+ [0-9a-f]*", l) for l in log):
